@@ -22,9 +22,13 @@ def dec_jobs(tier, prefix="C04.a", valid_only=True):
                     continue
                 if tier == "quick" and ver == 2 and dec != "DEC_VAR":
                     continue
-                if tier == "quick" and dec == "DEC_NAME" and ch != chunks[0]:
+                if tier == "quick" and dec == "DEC_NAME" and (ch != chunks[0] or (ver, nm) not in ((5, "name5"), (1, "name1"))):
+                    continue
+                if tier == "quick" and dec == "DEC_VAR" and (ver, nm) not in ((1, "var.n1.d2"), (2, "var.n4.d1"), (5, "var.n1.d2")):
                     continue
                 for posk in (range(0, ch + 1, 4) if dec != "DEC_VAR" else [0]):
+                    if tier == "quick" and dec == "DEC_NAME" and ver == 1 and posk != 4:
+                        continue
                     if dec == "DEC_VAR" and ch != chunks[0]:
                         continue
                     ws = 0 if (posk // 4) % 2 == 0 else 4
